@@ -21,8 +21,10 @@ CHECKS = {
          'bounded run-time contract with independent DDL reader'),
  'C05': ('other', 'P: lookup/back-pointer contracts (Database.table_dict, __getitem__, add_*, Table.add_column/add_index/__getitem__, note setters) discharged by z3; '
          'B (bounded): identity predicates on parsed databases with varied addressing', '3/C05', 'contracts (PyVC+z3) + bounded identity checks on parsed databases'),
- 'C06': ('proof', 'P: exceptional postconditions (raises iff rule broken, heap unchanged) of Database.add_table/add_enum/add_table_group/add_reference/add and Table.__getitem__ discharged by z3; '
-         'document-level spellings are covered by the bounded C01/C05 domains', '3/C06', 'exceptional postconditions (PyVC+z3)'),
+ 'C06': ('other', 'P: exceptional postconditions (raises iff rule broken, heap unchanged) of Database.add_table/add_enum/add_table_group/add_reference/add and Table.__getitem__ discharged by z3; '
+         'B (bounded): every rule x both declaration orders x position x spelling on seeded base schemas raises the rule\'s error', '3/C06', 'exceptional postconditions (PyVC+z3)'),
+ 'C07': ('other', 'B (bounded, exhaustive over fault kinds x sites of the base documents): every injected fault of the statement\'s kinds makes the parse raise a pyparsing exception; a later parse is unaffected (no leak). '
+         'The accepted language of the pyparsing grammar is outside a contract verifier\'s reach (DESIGN.md 2.7)', '3/C07', 'bounded fault-injection contract on the real parser'),
  'C08': ('other', 'B (bounded): outcome of parse/.dbml/.sql is in the allowed exception set over exhaustive token soups, site fills and seeded mutations', '3/C08',
          'bounded run-time contract on the real entry points'),
  'C09': ('other', 'P: the representation invariant is proved preserved by every Database method and by Table.add_column/delete_column/add_index/delete_index, with exact list effects, '
@@ -35,6 +37,8 @@ CHECKS = {
  'C12': ('other', 'B (bounded, exhaustive over routes x BOM x options): all seven entry points agree; constructor type refusal', '3/C12', 'bounded run-time contract over all routes'),
  'C13': ('other', 'B (bounded): normalisation contract exhaustively over short strings, three string styles, 12 text sites round trip, SQL literal neutralisation', '3/C13',
          'bounded run-time contracts; escaping lemmas to be added'),
+ 'C14': ('other', 'P: tools.comment / comment_to_sql prefix every line (discharged by z3), parse-action comment priority; B (bounded): capture per element kind and placement, '
+         'inertness under comment insertion at every allowed position, rendering as comment lines and statement non-pollution', '3/C14', 'comment-prefix contract (PyVC+z3) + bounded capture/inertness checks'),
  'C15': ('other', 'P: Database.__init__ stores the flag; B (bounded): accept/reject/same/flip contracts over generated documents', '3/C15', 'contracts + bounded accept/reject/flip checks'),
  'C16': ('other', 'B (bounded): custom renderer classes are used for database and elements, unhandled types render empty, default pieces appear exactly once, purity under shuffled repeated evaluation; '
          'P: Database.__init__ stores the renderer classes', '3/C16', 'bounded run-time contract with instrumented renderer classes'),
@@ -43,8 +47,6 @@ CHECKS = {
          'the ordering clause fails on the unchanged tree and is a listed known finding (test_reorder_tables pins the heuristic)', '3/C18', 'bounded exhaustive DAG enumeration with independent DDL reader'),
 }
 NOT_APPLICABLE = {
- 'C07': 'check under construction: the whole-input funnel obligations (S/P) and the bounded fault-injection contract are not built yet; not claimed until they run',
- 'C14': 'check under construction: comment capture/inertness (bounded) and the comment-prefix lemma are not built yet; not claimed until they run',
 }
 
 def main():
